@@ -9,6 +9,7 @@ expected descriptions); argument values are random at run time. Items and driver
 (drivers live behind the cargo feature `drivers`) so that "the code zlink generated does not
 compile" can be told from "the harness' driver does not compile".
 """
+import json
 import os
 import random
 import sys
@@ -36,6 +37,15 @@ def snake(nwords):
         if n in KEYWORDS:
             continue
         return n
+
+
+def rs(x):
+    """`x` as the inside of a Rust string literal."""
+    return json.dumps(x, ensure_ascii=False)[1:-1]
+
+
+# wire names that are not identifiers: JSON must escape some of their characters
+ODD_WIRE = ['3.5" bay', "HKLM\\Software", "tab\there", "dash-dot.slash/é", "with space", "ünï", "a\"b\\c", "new\nline"]
 
 
 def pascal(s):
@@ -148,6 +158,8 @@ def gen_trait(k):
             spec["var"] = "a_" + an.replace("r#", "")
             spec["key"] = an.replace("r#", "")
             spec["wire"] = (R.choice(["the", "x"]) + pascal(an) if R.random() < 0.5 else an.upper()) if R.random() < 0.3 else None
+            if spec["wire"] and R.random() < 0.25:
+                spec["wire"] = R.choice(ODD_WIRE) + str(a)
             args.append(spec)
         if style == "explicit" and not any("'a" in a["ty"] for a in args):
             style = "elided"
@@ -176,7 +188,7 @@ def method_sig(m):
         gen = "<T: Serialize + std::fmt::Debug>"
     params = ["&mut self"]
     for a in m["args"]:
-        ra = f'#[zlink(rename = "{a["wire"]}")] ' if a["wire"] else ""
+        ra = f'#[zlink(rename = "{rs(a["wire"])}")] ' if a["wire"] else ""
         params.append(f'{ra}{a["name"]}: {a["ty"]}')
     if m["kind"] == "oneway":
         ret = "zlink_core::Result<()>"
@@ -206,9 +218,9 @@ def driver(t, m, mi, others):
         key = a["wire"] or a["key"]
         val = a["js"].format(v=a["var"])
         if a.get("opt"):
-            pbuild.append(f'        if {a["var"]}.is_some() {{ params.insert("{key}".into(), {val}); }}')
+            pbuild.append(f'        if {a["var"]}.is_some() {{ params.insert("{rs(key)}".into(), {val}); }}')
         else:
-            pbuild.append(f'        params.insert("{key}".into(), {val});')
+            pbuild.append(f'        params.insert("{rs(key)}".into(), {val});')
     sent = [a for a in m["args"] if not a.get("skip")]
     all_opt = bool(sent) and all(a.get("opt") for a in sent)
     has_args = bool(sent)
@@ -314,9 +326,9 @@ def driver(t, m, mi, others):
                 key = a["wire"] or a["key"]
                 val = a["js"].format(v="o_" + a["var"])
                 if a.get("opt"):
-                    opb.append(f'        if o_{a["var"]}.is_some() {{ oparams.insert("{key}".into(), {val}); }}')
+                    opb.append(f'        if o_{a["var"]}.is_some() {{ oparams.insert("{rs(key)}".into(), {val}); }}')
                 else:
-                    opb.append(f'        oparams.insert("{key}".into(), {val});')
+                    opb.append(f'        oparams.insert("{rs(key)}".into(), {val});')
             osent = [a for a in o["args"] if not a.get("skip")]
             oall = bool(osent) and all(a.get("opt") for a in osent)
             ocall = ", ".join(a["pas"].format(v="o_" + a["var"]) for a in o["args"])
@@ -414,6 +426,8 @@ def gen_errenum(k):
             pool = EFIELDS + (EFIELDS_B if borrowed else [])
             ty, gen, js = R.choice(pool)
             wire = (R.choice(["the", "x"]) + pascal(fn)) if R.random() < 0.35 else None
+            if wire and R.random() < 0.25:
+                wire = R.choice(ODD_WIRE) + str(len(fields))
             ident = ("r#" + fn) if fn in RUST_KEYWORDS else fn
             fields.append(dict(name=fn, ident=ident, ty=ty, gen=gen, js=js, wire=wire))
         variants.append(dict(name=vn, fields=fields))
@@ -432,7 +446,7 @@ def err_module(e):
             s.append(f'    {v["name"]} {{\n')
             for f in v["fields"]:
                 if f["wire"]:
-                    s.append(f'        #[zlink(rename = "{f["wire"]}")]\n')
+                    s.append(f'        #[zlink(rename = "{rs(f["wire"])}")]\n')
                 s.append(f'        {f["ident"]}: {f["ty"]},\n')
             s.append("    },\n")
         else:
@@ -449,7 +463,7 @@ def err_module(e):
         for f in v["fields"]:
             key = f["wire"] or f["name"]
             # the property: "a `parameters` object holding the variant's fields under their wire names"
-            s.append(f'            params.insert("{key}".into(), {f["js"].format(v="f_" + f["name"])});\n')
+            s.append(f'            params.insert("{rs(key)}".into(), {f["js"].format(v="f_" + f["name"])});\n')
         if v["fields"]:
             inits = []
             for f in v["fields"]:
